@@ -32,6 +32,8 @@ def gen(rng, n):
         if rng.chance(1, 5):
             d["NEW_RWND_AT"] = rng.choice([30000, 100000])
             d["NEW_RWND"] = rng.choice([500, 5000, 100000])
+        if d.get("RETRY") and d.get("DROP_MASK", 0) >= 64:
+            d["DROP_MASK"] &= 63   # a retry token only lives 15 s: do not starve the handshake beyond that
         # keep the transfer within a few hundred round trips of the smallest window
         w = min(d.get("STREAM_RWND", 1 << 40), d.get("RWND", 1 << 40), d.get("SEND_WINDOW", 1 << 40))
         if d["STREAM_BYTES"] > 100 * w:
@@ -45,7 +47,9 @@ def gen(rng, n):
 
 
 def project(case, outs):
-    return S.project(outs, TAGS)
+    if outs == [[-999]]:
+        return outs
+    return [r for r in outs if r[0] in TAGS or r[0] == 16 or (r[0] == 3 and r[4] == 11)]
 
 
 def nontrivial(case, outs):
